@@ -19,6 +19,24 @@ type Collection struct {
 	Schema       models.IndexSchema
 	MaxPointSize int
 	Docs         map[uuid.UUID]Doc
+	// SizeNames: top-level property names under which the documents are really stored (see
+	// drive.OpenNamed); they only matter for the encoded size of a merged document
+	SizeNames map[string]string
+}
+
+func (c *Collection) storedSize(d Doc) int {
+	if len(c.SizeNames) == 0 {
+		return len(Encode(d))
+	}
+	r := Doc{}
+	for k, v := range d {
+		if n, ok := c.SizeNames[k]; ok {
+			r[n] = v
+		} else {
+			r[k] = v
+		}
+	}
+	return len(Encode(r))
 }
 
 func NewCollection(schema models.IndexSchema, maxPointSize int) *Collection {
@@ -27,6 +45,7 @@ func NewCollection(schema models.IndexSchema, maxPointSize int) *Collection {
 
 func (c *Collection) Clone() *Collection {
 	n := NewCollection(c.Schema, c.MaxPointSize)
+	n.SizeNames = c.SizeNames
 	for k, v := range c.Docs {
 		n.Docs[k] = CloneDoc(v)
 	}
@@ -95,7 +114,7 @@ func (c *Collection) Update(points []Point) (updated []uuid.UUID, reason string)
 			}
 		}
 		merged := Merge(cur, p.Doc)
-		if c.MaxPointSize > 0 && len(Encode(merged)) > c.MaxPointSize {
+		if c.MaxPointSize > 0 && c.storedSize(merged) > c.MaxPointSize {
 			return nil, fmt.Sprintf("merged document of %s exceeds %d bytes", p.Id, c.MaxPointSize)
 		}
 		work[p.Id] = merged
